@@ -721,7 +721,30 @@ int main(int argc, char** argv) {
                 if (st2 != "ok" || l2 != loaded) verdict = "FAIL gds-timestamp-rewrite rewritten file loads differently";
                 ErrorCode e4 = ErrorCode::NoError;
                 tm got = gds_timestamp(p2.c_str(), NULL, &e4);
-                if (got.tm_year != 99 || got.tm_sec != 5) verdict = "FAIL gds-timestamp-rewrite new timestamp not stored";
+                if (got.tm_year != 99 || got.tm_mon != 0 || got.tm_mday != 2 || got.tm_hour != 3 || got.tm_min != 4 || got.tm_sec != 5)
+                    verdict = "FAIL gds-timestamp-rewrite new timestamp not stored";
+                // the field holds six plain numbers, not a calendar time: stamps that no calendar knows (day 31 of April, second 60,
+                // month 0 / day 0 as some tools write) must be stored and returned verbatim, by the rewrite and by the query
+                static const int odd[3][6] = {{2024, 4, 31, 23, 59, 60}, {1987, 0, 0, 0, 0, 0}, {2031, 2, 30, 24, 0, 0}};
+                const int* od = odd[(it / 2) % 3];
+                tm w3 = {};
+                w3.tm_year = od[0] - 1900; w3.tm_mon = od[1] - 1; w3.tm_mday = od[2]; w3.tm_hour = od[3]; w3.tm_min = od[4]; w3.tm_sec = od[5];
+                ErrorCode e5 = ErrorCode::NoError;
+                gds_timestamp(p2.c_str(), &w3, &e5);
+                std::vector<uint8_t> ob = read_file(p2);
+                if (ob.size() >= 28 && ob[2] == 0 && ob[3] == 2) {
+                    size_t q = ((size_t)ob[0] << 8) | ob[1];  // BGNLIB follows HEADER
+                    for (int w = 0; w < 12 && q + 28 <= ob.size(); w++) {
+                        unsigned v = ((unsigned)ob[q + 4 + 2 * w] << 8) | ob[q + 5 + 2 * w];
+                        if (v != (unsigned)od[w % 6] && verdict == "ok")
+                            verdict = "FAIL gds-timestamp-rewrite word " + std::to_string(w) + " of a stamp that is no calendar date is " + std::to_string(v) + ", not " + std::to_string(od[w % 6]);
+                    }
+                }
+                ErrorCode e6 = ErrorCode::NoError;
+                tm g3 = gds_timestamp(p2.c_str(), NULL, &e6);
+                if (verdict == "ok" && (g3.tm_year != w3.tm_year || g3.tm_mon != w3.tm_mon || g3.tm_mday != w3.tm_mday || g3.tm_hour != w3.tm_hour ||
+                                        g3.tm_min != w3.tm_min || g3.tm_sec != w3.tm_sec))
+                    verdict = "FAIL gds-timestamp-query the query does not return the stored words of a stamp that is no calendar date";
             }
             out.P(id, verdict);
         }
